@@ -6,6 +6,7 @@ import ast
 from ..core import pymachine as PM
 from ..core.pyeval import PyEval, show
 from ..core.pyfacts import PyRepo
+from ..core.report import AnalysisError
 from ..core.wiring import Wiring
 
 LEVEL = 'other'
@@ -310,6 +311,35 @@ def super_calls_same_method(ctx, py):
             if mname not in PM.INTERP_METHODS:
                 continue
             params = [a.arg for a in fn.args.args[1:]]
+            # the super() calls this method makes, read off its value paths (a parent method handed to a private helper of the class -
+            # `self._bind(super().exists, ..)` - is called inside the helper and counts as called here)
+            found = None
+            try:
+                mf = PM.level_facts(py, ci, mname)
+                found = []
+                for rec in mf.paths + mf.raises:
+                    for sname, sargs, skw in rec['supers']:
+                        if sname in PM.INTERP_METHODS and (sname, sargs, skw) not in [f[:3] for f in found]:
+                            found.append((sname, sargs, skw, rec['node'] or fn))
+            except AnalysisError:
+                found = None
+            if found is not None:
+                from ..core.pyeval import show as _show
+                for sname, sargs, skw, node in found:
+                    n += 1
+                    got = list(sargs) + [None] * max(0, len(params) - len(sargs))
+                    kw_ok = True
+                    for k, v in skw:
+                        if k in params:
+                            got[params.index(k)] = v
+                        else:
+                            kw_ok = False
+                    ok = sname == mname and kw_ok and tuple(got) == tuple(('param', p_) for p_ in params)
+                    ctx.ob('super-same-method', f'{ci.name}.{mname}', ok,
+                           f'{ci.name}.{mname} delegates to super().{sname}({", ".join(_show(a) for a in sargs)}); an interpreter refines a call '
+                           f'by calling the same method of its parent with the same arguments ({mname}({", ".join(params)}))',
+                           py.where(ci.module, node if isinstance(node, ast.AST) else fn))
+                continue
             for node in ast.walk(fn):
                 if isinstance(node, ast.Call) and isinstance(node.func, ast.Attribute) and isinstance(node.func.value, ast.Call) \
                         and isinstance(node.func.value.func, ast.Name) and node.func.value.func.id == 'super' and node.func.attr in PM.INTERP_METHODS:
